@@ -244,7 +244,7 @@ pub fn check(ctx: &Ctx) -> i32 {
     let mut ev = Evidence::default();
     ev.rule = "Core programs produced by fun2core from generated Fun programs with effects (print, exit, goto, nested calls) in any argument position; oracle: the Core abstract machine with dynamic focusing on the unfocused program vs the same machine on Prog::focus() (output, result, termination), plus the structural invariant that parameters, mu/mu-tilde and clause binders along every path have pairwise distinct non-zero ids <= max_id. Non-trivial: the unfocused run had to evaluate >= 2 non-value arguments through reified contexts and printed at least once; distinct by hash of (source, arguments).".into();
     ev.assumptions = vec!["Core machine as in DESIGN.md 3.2".into()];
-    let n = ctx.tier.pick(6000, 60000);
+    let n = ctx.tier.pick(6000, 400000);
     let run = |b: &[u8]| {
         let c = decode(ctx, b);
         run_case(ctx, &c.prog, &c.tuples)
